@@ -2,6 +2,7 @@
 pub mod checks;
 pub mod cmp;
 pub mod driver;
+pub mod envelope;
 pub mod explore;
 pub mod hist;
 pub mod families;
